@@ -1,4 +1,6 @@
 """C09 — full/empty lock: status hand-off between producers and consumers."""
+import os
+
 import common
 from props import sched_common
 
@@ -21,6 +23,8 @@ def run(res):
                [1, 1, 1, 2, res.seed * 10 + 4, 2, 2], [3, 2, 2, 2, res.seed * 10 + 5, 4, 2]]
         sched_common.campaign(res, "C09", "felock_rff_prog", rff, n // 3, [],
                               workers_note=", mailbox with 2..4 readers that leave the slot full (oracle only: exclusivity, valid reads, every participant returns)")
+    if not res.violations:
+        sched_common.free_stress(res, "C09", "felock", [(4, 4, 3000, 2), (2, 4, 4000, 1), (8, 6, 1500, 0), (3, 5, 3000, 3), (1, 4, 2000, 1)])
     if res.breaks and not res.violations:
         sched_common.search_more(res, "C09", "felock_prog", variants(res.seed + 1), 400)
     if res.breaks and not res.violations:
@@ -32,4 +36,6 @@ def run(res):
 
 
 def replay(path):
+    if os.path.isfile(path) and path.endswith("stress.txt") and open(path).readline().startswith("sync_stress_prog"):
+        return sched_common.replay_stress("C09", path)
     return sched_common.replay("C09", path)
